@@ -1,6 +1,5 @@
 // stubs.cc — placeholders for simulations not linked into this binary yet.
 #include "sim.h"
-Sim *make_stream_sim() { return nullptr; }
 Sim *make_oneshot_sim() { return nullptr; }
 Sim *make_dispatch_sim() { return nullptr; }
 Sim *make_fipsgate_sim() { return nullptr; }
